@@ -26,7 +26,8 @@ OpsOnDim == {"take_scalar", "take_list", "take_slice", "take_position", "isel_sc
 Drops == {"take_scalar", "isel_scalar", "mean", "sum", "std", "var", "median"}
 CarriesAttrs == {"take_scalar", "take_list", "take_slice", "take_position", "isel_scalar", "sel_list", "take_axis", "sort_axis",
                  "reindex_axis", "reindex_fill", "interp_axis", "interp_axis_oob"}
-Whole == {"add_ds", "mul_scalar", "rsub_scalar", "neg", "stack_ds", "concatenate_ds", "construct_misaligned"}
+Whole == {"add_ds", "mul_scalar", "rsub_scalar", "neg", "stack_ds", "concatenate_ds", "construct_misaligned",
+          "add_ds_misaligned", "sub_ds_misaligned", "stack_ds_align", "concatenate_ds_align", "concatenate_ds_align_pos"}
 
 Init == in = <<>> /\ out = <<>> /\ ph = 0
 Choose ==
@@ -42,7 +43,7 @@ Choose ==
        \/ \E o \in Whole :
             /\ in' = [vars |-> vs, op |-> o, d |-> IF Len(dd) > 0 THEN dd[1] ELSE "", byname |-> TRUE]
             /\ out' = [affected |-> [i \in 1..n |-> TRUE],
-                       dims |-> IF o = "stack_ds" THEN <<"k">> \o dd ELSE dd, attrs |-> FALSE, pervar |-> TRUE]
+                       dims |-> IF o \in {"stack_ds", "stack_ds_align"} THEN <<"k">> \o dd ELSE dd, attrs |-> FALSE, pervar |-> TRUE]
   /\ (Emit => PrintT(ToJson([op |-> "dataset_op", in |-> in', out |-> out'])))
 Next == Choose
 Spec == Init /\ [][Next]_vars
